@@ -1,6 +1,6 @@
 (* C07 - More information never hurts: intervals shrink, every gap is non-increasing.
    Statements only; proofs in theories/SATight.v (knowledge monotonicity) and theories/NormsProofs.v (gap functions). *)
-From ICG Require Import Prelude Bits Table Bounds FoldLemmas BoundsSpec SASound SAEquiv SATight Checks Shapley Exploit Norms NormsProofs GapsAlongReveals.
+From ICG Require Import Prelude Bits Table Bounds FoldLemmas BoundsSpec SASound SAEquiv SATight Checks Shapley Exploit Norms NormsProofs SAMSpec SAMMono GapsAlongReveals.
 From ICG Require Import RegistryTypes gen.Registry gen.RegistryLinkProps Env.
 
 (* K <= K' pointwise: both superadditive computers give pointwise tighter intervals under K'.
@@ -31,6 +31,23 @@ Theorem C07_sa_gaps_zero_when_full :
     agrees n t K v -> compute c n t = Some r -> gaps_zero n r.
 Proof. exact sa_gaps_zero_when_full. Qed.
 Print Assumptions C07_sa_gaps_zero_when_full.
+
+(* the same for the approximate superadditive-monotone computer, for EVERY repetition count r *)
+Theorem C07_sam_monotone_in_knowledge :
+  forall n r v K K' t t' a b,
+    SA n v -> Mono n v -> v 0%N == 0 -> MinK n K -> (forall s, K s = true -> K' s = true) ->
+    agrees n t K v -> agrees n t' K' v -> compute_sam n r t = Some a -> compute_sam n r t' = Some b ->
+    forall s, bounded n s -> L a s <= L b s /\ U b s <= U a s.
+Proof. exact sam_monotone_in_knowledge. Qed.
+Print Assumptions C07_sam_monotone_in_knowledge.
+
+Theorem C07_sam_gaps_along_reveals :
+  forall n r v K K' t t' a b,
+    SA n v -> Mono n v -> v 0%N == 0 -> MinK n K -> (forall s, K s = true -> K' s = true) ->
+    agrees n t K v -> agrees n t' K' v -> compute_sam n r t = Some a -> compute_sam n r t' = Some b ->
+    gaps_le n b a /\ gaps_nonneg n b /\ gaps_nonneg n a.
+Proof. exact sam_gaps_along_reveals. Qed.
+Print Assumptions C07_sam_gaps_along_reveals.
 
 (* the gap functions themselves: monotone in the vector of interval widths, non-negative, zero on zero widths *)
 Theorem C07_gaps_monotone :
